@@ -61,16 +61,23 @@ class Ctx:
 
     # ---------------------------------------------------------- known findings
     def _load_known(self):
-        try:
-            with open(KNOWN) as f:
-                data = json.load(f)
-        except FileNotFoundError:
-            return []
-        return [
-            f
-            for f in data.get("findings", [])
-            if f.get("property") == self.pid and f.get("status") == "known"
-        ]
+        out = []
+        paths = [KNOWN]
+        d = os.path.join(VERIF, "known_findings.d")
+        if os.path.isdir(d):
+            paths += [os.path.join(d, n) for n in sorted(os.listdir(d)) if n.endswith(".json")]
+        for p in paths:
+            try:
+                with open(p) as f:
+                    data = json.load(f)
+            except FileNotFoundError:
+                continue
+            out += [
+                f
+                for f in data.get("findings", [])
+                if f.get("property") == self.pid and f.get("status") == "known"
+            ]
+        return out
 
     def match_known(self, sig):
         for i, f in enumerate(self._known):
